@@ -126,6 +126,15 @@ def mon_c11_fs(case, verdict, chk):
     _crash(chk, "fs", s.get("class"), _site(s.get("panic_site")), "engine.SubworkflowCache", case)
     m = case.get("parse_mem") or {}
     _crash(chk, "fs", m.get("class"), _site(m.get("panic_site")), "engine.Parse (caller-supplied copies that differ from the context directory)", case)
+    pp = case.get("parse_part") or {}
+    _crash(chk, "fs", pp.get("class"), _site(pp.get("panic_site")), "engine.Parse (caller-supplied honest copies of a part of the tree)", case)
+    if pp.get("class") in ("ok", "err") and p.get("class") in ("ok", "err") and pp["class"] != p["class"]:
+        chk.violation("C11:supplied-copies-change-the-verdict",
+                      "engine.Parse with the whole tree in the context directory: %s%s; with honest copies of %r supplied by the caller "
+                      "(same texts, same keys as the loop steps use) and the rest in the context directory: %s%s" % (
+                          p["class"], (" (" + str(p.get("err")) + ")") if p.get("err") else "", pp.get("supplied"),
+                          pp["class"], (" (" + str(pp.get("err")) + ")") if pp.get("err") else ""),
+                      {"kind": "impl-counterexample", "case": slim(case)})
     problems, reachable = fs_problems(case)
     for obs, name in ((p, "engine.Parse"), (s, "engine.SubworkflowCache")):
         if obs.get("class") == "ok":
